@@ -1,10 +1,14 @@
 SPECIFICATION GenSpec
 CONSTANTS SlotDur = 3
+ Extra = 1
+ Feats = {"off"}
+ HeadPcs = {}
  NextResolve = "ascoded"
  TickMode = "ascoded"
  Variant = "code"
  MaxTime = 28
  GenEnd = 24
+ MaxHeads = 0
  MaxFail = 4
  Interleave = FALSE
  MaxJump = 3
